@@ -4,15 +4,16 @@ import json, re, sys, os, glob
 summ = open(sys.argv[1]).read().splitlines()
 und, vio = {}, {}
 for l in summ:
-    m = re.match(r'(C\d\d-R\d): (C\d\d) (UNDECIDED|VIOLATION)\s+(.*)', l)
+    m = re.match(r'(?:(refactors\w*) )?(C\d\d-R\d): (C\d\d) (UNDECIDED|VIOLATION)\s+(.*)', l)
     if m:
-        (und if m.group(3) == 'UNDECIDED' else vio).setdefault(m.group(1), []).append((m.group(2), m.group(4)[:200]))
+        (und if m.group(4) == 'UNDECIDED' else vio).setdefault((m.group(1) or 'refactors', m.group(2)), []).append((m.group(3), m.group(5)[:200]))
 n_ok = 0
-for mf in sorted(glob.glob('/verif/seeded/refactors/C*/meta.json')):
+for mf in sorted(glob.glob('/verif/seeded/refactors*/C*/meta.json')):
     meta = json.load(open(mf))
     p = meta['property']
+    rset = os.path.basename(os.path.dirname(os.path.dirname(mf)))
     for r, d in meta['refactors'].items():
-        u, v = und.get('%s-%s' % (p, r), []), vio.get('%s-%s' % (p, r), [])
+        u, v = und.get((rset, '%s-%s' % (p, r)), []), vio.get((rset, '%s-%s' % (p, r)), [])
         d['checks_reporting_violation'] = sorted({c for c, _ in v})
         d['checks_left_undecided'] = sorted({c for c, _ in u})
         d['undecided_detail'] = [' '.join(x) for x in u]
